@@ -55,9 +55,9 @@ func vxSameAlerts(res []detection.ScanResult, want []vxAlert) bool {
 // atomic scan of the state before, or of the state after, the writer would report.
 func VerifC11_ScanDuringWrite() {
 	s := vxNewStore()
-	v1 := vxSig("A")
+	v1 := vxSigLite("A")
 	v1.NodeCount = 1
-	v2 := vxSig("A")
+	v2 := vxSigLite("A")
 	v2.NodeCount = 2
 	before := &vxLive{}
 	{
@@ -145,4 +145,13 @@ func vxExactOK(res []detection.ScanResult, x *vxLive, topo *topology.FunctionTop
 		}
 	}
 	return vxSameAlerts(res, want) // at most one signature in this bound, so "best" is "the" hit
+}
+
+// a lighter signature for the interleaving harness: hashes and entropy solver-chosen, tolerance fixed
+func vxSigLite(id string) detection.Signature {
+	s := detection.Signature{ID: id, Name: "n", Severity: "HIGH", EntropyTolerance: 0.5}
+	s.TopologyHash = vxSelStr([]string{vxTopoHash(0), vxTopoHash(1)}, vxIntRange(0, 1))
+	s.FuzzyHash = vxSelStr([]string{"", vxFuzzyHash(0)}, vxIntRange(0, 1))
+	s.EntropyScore = vxSelF64([]float64{0, 0.5, 5}, vxIntRange(0, 2))
+	return s
 }
